@@ -102,6 +102,29 @@ def _exactness(ctx, f, conds):
     return res
 
 
+def epsilon_reads(ctx, R, ri, forced):
+    """V.epsilon exists only for inexact arithmetic: Rational has none and Guarded assigns it only in its guard == 0 branch (and
+    never removes it, so after a guard-0 election a stale value stays on the class).  Every read in a rule is therefore under
+    `not V.exact` (or the rule forces fixed/integer), and nothing probes for the attribute dynamically (getattr with a default,
+    hasattr): whether it is present is a fact about earlier elections of the process."""
+    f = ri.count
+    for g in all_funcs_of(f):
+        for a in g.own_nodes():
+            if isinstance(a, ast.Attribute) and a.attr == 'epsilon' and ctx.canon(a.value, g) == 'E.V':
+                conds = _branch_conds(ctx, g, a)
+                ex = _exactness(ctx, g, conds)
+                ok = ex == 'inexact' or forced in ('fixed', 'integer')
+                ctx.check(ok, R, a, g, 'V.epsilon is read only under inexact arithmetic (Rational has none; Guarded defines it only for guard 0)',
+                          'not V.exact on this path' if ex == 'inexact' else 'rule forces arithmetic=%s' % forced,
+                          'V.epsilon read on a path where the arithmetic may be exact: AttributeError (rational) or a stale/None value (guarded)')
+            if isinstance(a, ast.Call) and isinstance(a.func, ast.Name) and a.func.id in ('getattr', 'hasattr') and len(a.args) >= 2 \
+                    and (ctx.canon(a.args[0], g) == 'E.V' or unparse(a.args[0]).split('.')[-1] in ('Fixed', 'Guarded', 'Rational')):
+                ok = a.func.id == 'getattr' and len(a.args) == 2 and False
+                ctx.check(ok, R, a, g, 'no rule probes the arithmetic class for the presence of an attribute',
+                          '', '`%s` asks whether the arithmetic class has an attribute: class attributes set by an earlier election of the '
+                          'process are still there (Guarded.epsilon after a guard=0 count), so the answer depends on history' % unparse(a))
+
+
 def r13_quota(ctx):
     R = 'R13'
     nq = 0
@@ -198,15 +221,7 @@ def r13_quota(ctx):
                                                                        'a candidate with exactly a Droop quota would be elected (too many winners possible)'
                                                                        if ex == 'exact' else 'a candidate holding exactly the rounded-up quota is not elected'))
         # (c) epsilon is read only where the arithmetic has one
-        for g in all_funcs_of(f):
-            for a in g.own_nodes():
-                if isinstance(a, ast.Attribute) and a.attr == 'epsilon' and ctx.canon(a.value, g) == 'E.V':
-                    conds = _branch_conds(ctx, g, a)
-                    ex = _exactness(ctx, g, conds)
-                    ok = ex == 'inexact' or forced in ('fixed', 'integer')
-                    ctx.check(ok, R, a, g, 'V.epsilon is read only under inexact arithmetic (Rational has none; Guarded defines it only for guard 0)',
-                              'not V.exact on this path' if ex == 'inexact' else 'rule forces arithmetic=%s' % forced,
-                              'V.epsilon read on a path where the arithmetic may be exact: AttributeError (rational) or a stale/None value (guarded)')
+        epsilon_reads(ctx, R, ri, forced)
     # (d) the quota is computed before it is first compared, recorded or reported
     for ri in rules(ctx):
         f, cfg = ri.count, ri.cfg
